@@ -25,6 +25,7 @@ type LoopSpec struct {
 	Invariants []*Clause
 	Decreases  *Clause
 	Unroll     int
+	Isolate    bool // restart the path condition at the loop head (the invariant must restate what is needed)
 }
 
 type CallHint struct {
@@ -48,6 +49,17 @@ type CutSpec struct {
 	used   bool
 	SplitVar string
 	SplitLo, SplitHi int
+}
+
+// ApplySpec: instantiate a lemma of the contract file at a program point: its hypotheses are
+// proved there, its conclusion becomes available.
+type ApplySpec struct {
+	Text  string // anchor line text ("" when attached to a loop entry)
+	Ord   int
+	Loop  int // loop ordinal when attached to a loop entry (0 otherwise)
+	Lemma string
+	Args  []*Clause
+	Line  int
 }
 
 type AssertSpec struct {
@@ -79,6 +91,7 @@ type Contract struct {
 	Uses      []string // axiom families to instantiate
 	Assigns   []string
 	Cuts      []*CutSpec
+	Applies   []*ApplySpec
 	Mentions  []*Clause
 }
 
@@ -105,7 +118,7 @@ type ContractFile struct {
 	Lemmas []*Lemma
 }
 
-var kwRe = regexp.MustCompile(`^(mention|cut|func|lemma|mode|returns|logical|requires|ensures|loop|call|waive|panics|props|trusted|assert|assume|split|nosafety|forall|hyp|holds|export|uses|assigns)\b`)
+var kwRe = regexp.MustCompile(`^(apply|mention|cut|func|lemma|mode|returns|logical|requires|ensures|loop|call|waive|panics|props|trusted|assert|assume|split|nosafety|forall|hyp|holds|export|uses|assigns)\b`)
 
 func parseContractFile(path string) (*ContractFile, error) {
 	f, err := os.Open(path)
@@ -235,6 +248,16 @@ func parseContractFile(path string) (*ContractFile, error) {
 			}
 		case "loop":
 			// loop N: invariant E | loop N: decreases E | loop N: unroll K
+			if im := regexp.MustCompile(`^(\d+)\s*:\s*isolate\s*$`).FindStringSubmatch(rest); im != nil {
+				n, _ := strconv.Atoi(im[1])
+				ls := cur.Loops[n]
+				if ls == nil {
+					ls = &LoopSpec{}
+					cur.Loops[n] = ls
+				}
+				ls.Isolate = true
+				continue
+			}
 			m := regexp.MustCompile(`^(\d+)\s*:\s*(invariant|decreases|unroll)\s+(.*)$`).FindStringSubmatch(rest)
 			if m == nil {
 				return nil, fail("bad loop clause")
@@ -357,6 +380,53 @@ func parseContractFile(path string) (*ContractFile, error) {
 				}
 			}
 			cur.Cuts = append(cur.Cuts, &CutSpec{Text: m[1], Ord: ord, Havoc: hv, Clause: c, SplitVar: spVar, SplitLo: spLo, SplitHi: spHi})
+		case "apply":
+			// apply before "text"#n: lemma(a, b, ...)   |   apply loop N: lemma(a, b, ...)
+			m := regexp.MustCompile(`^(before\s+"([^"]*)"(#(\d+))?|loop\s+(\d+))\s*:\s*([A-Za-z_][A-Za-z0-9_]*)\((.*)\)\s*$`).FindStringSubmatch(rest)
+			if m == nil {
+				return nil, fail("bad apply clause")
+			}
+			ap := &ApplySpec{Text: m[2], Ord: 1, Lemma: m[6], Line: it.line}
+			if m[4] != "" {
+				ap.Ord, _ = strconv.Atoi(m[4])
+			}
+			if m[5] != "" {
+				ap.Loop, _ = strconv.Atoi(m[5])
+			}
+			// split arguments at top-level commas
+			depth := 0
+			curArg := ""
+			flush := func() error {
+				if strings.TrimSpace(curArg) == "" {
+					return nil
+				}
+				c, err := mkClause(strings.TrimSpace(curArg), it.line)
+				if err != nil {
+					return err
+				}
+				ap.Args = append(ap.Args, c)
+				curArg = ""
+				return nil
+			}
+			for _, ch := range m[7] {
+				if ch == '(' || ch == '[' {
+					depth++
+				}
+				if ch == ')' || ch == ']' {
+					depth--
+				}
+				if ch == ',' && depth == 0 {
+					if err := flush(); err != nil {
+						return nil, err
+					}
+					continue
+				}
+				curArg += string(ch)
+			}
+			if err := flush(); err != nil {
+				return nil, err
+			}
+			cur.Applies = append(cur.Applies, ap)
 		case "mention":
 			c, err := mkClause(rest, it.line)
 			if err != nil {
